@@ -351,6 +351,11 @@ def run(case, out, _attributing=False):
 
 
 def _run(case, out):
+    if case["kind"] == "query" and any(x.get("scale") is not None for x in walk(case["query"])):
+        # Or(scale=...): the coordination wrapper's bounds have not been triaged yet (DESIGN 5.2, note); C11 checks
+        # its cursor behaviour
+        out.exclude("coordination_scale_bounds_not_triaged")
+        return
     facs, shp = c11.factories(case, out)
     searcher = None
     try:
